@@ -175,6 +175,9 @@ def multi(ctx, pool, sizes, reps=1):
                 # columns are swept; the carry of the signed recoding needs one more)
                 for b in rng.sample([5, 6, 7, 8, 11, 12, 13, 14, 20, 62, 63, 64, 125, 128, 250], 3):
                     variants.append(([(1 << b) - 1 - rng.randrange(4) for _ in range(n)], ['scalars:all-short']))
+                # unreduced 255-bit scalars (legacy from_bits values): the top radix-16 digit and the top NAF positions are used
+                variants.append(([rng.choice([(1 << 255) - 1, (1 << 254) + rng.randrange(1 << 254), (3 << 253) + rng.randrange(1 << 253),
+                                              rng.randrange(L)]) for _ in range(n)], ['scalars:unreduced', 'unreduced']))
             for ss, scl in variants:
                 _multi_one(ctx, rng, n, reps, ps, ss, scl)
 
@@ -191,7 +194,7 @@ def _multi_one(ctx, rng, n, reps, ps, ss, scl):
                 ncl.append('n>=500')
             if n >= 800:
                 ncl.append('n>=800')
-            stoks = lst([cs(s) for s in ss])
+            stoks = lst([(us(s) if s >= L else cs(s)) for s in ss])
             ptoks = lst([p.tok() for p in ps])
             if n <= 2200:
                 ctx.add('ed.msm', stoks, ptoks, expect=e, cls=['ep:msm'] + ncl)
@@ -205,17 +208,17 @@ def _multi_one(ctx, rng, n, reps, ps, ss, scl):
                     pl[pos] = '~'
                     ctx.add('ed.omsm', stoks, lst(pl), expect=['none'], cls=['ep:omsm', 'none-input'] + ncl)
                     for sv in (0, 1, L - 1):
-                        sl = [cs(s) for s in ss]
+                        sl = [(us(s) if s >= L else cs(s)) for s in ss]
                         sl[pos] = cs(sv)
                         ctx.add('ed.omsm', lst(sl), lst(pl), expect=['none'], cls=['ep:omsm', 'none-input', 'none-special-scalar'] + ncl)
                     if n <= 64:
                         rl = ['e' + even(p).tok() for p in ps]
                         rl[pos] = '~'
-                        sl = [cs(s) for s in ss]
+                        sl = [(us(s) if s >= L else cs(s)) for s in ss]
                         sl[pos] = cs(0)
                         ctx.add('rs.omsm', lst(sl), lst(rl), expect=['none'], cls=['ep:rs', 'none-input', 'none-special-scalar'] + ncl)
                 # zero / one scalars on present points
-                sl = [cs(s) for s in ss]
+                sl = [(us(s) if s >= L else cs(s)) for s in ss]
                 acc2 = acc
                 for pos in set([0, n - 1]):
                     acc2 = vals.pt_add(acc2, vals.pt_neg(vals.pt_mul(ss[pos], ps[pos])))
@@ -317,7 +320,7 @@ def ladder(ctx, n):
             if rng.random() < 0.3 and nb > 8:
                 bits &= (1 << (nb - rng.randint(1, nb))) - 1  # leading zeros
             bstr = ('b' + format(bits, '0%db' % nb)) if nb else '-'
-            ctx.add('mt.mulbits', ub.hex(), bstr, expect=[to32(ref.ladder(bits, u, nb)).hex()], cls=['ep:mulbits', 'mont:' + c])
+            ctx.add('mt.mulbits', ub.hex(), bstr, expect=[to32(ref.ladder(bits, u, nb)).hex()] * 4, cls=['ep:mulbits', 'mont:' + c])
         if rng.random() < 0.4:
             kb = vals.rb(rng, 32)
             ctx.add('mt.mulclamped', ub.hex(), kb.hex(), expect=[ref.x25519(kb, ub).hex()], cls=['ep:ladder', 'unreduced'])
